@@ -38,7 +38,11 @@ impl<'a> UnixRecvFrom<'a> {
             co_io_result(self.is_coroutine)?;
 
             // clear the io_flag
+            #[cfg(may_verif)]
+            crate::verif::pt("io.clear_flag", crate::verif::addr(&**self.io_data), 0, 0);
             self.io_data.io_flag.store(0, Ordering::Relaxed);
+            #[cfg(may_verif)]
+            crate::verif::pt("io.syscall", crate::verif::addr(&**self.io_data), 0, 0);
 
             match self.socket.recv_from(self.buf) {
                 Ok(n) => return Ok(n),
@@ -53,11 +57,15 @@ impl<'a> UnixRecvFrom<'a> {
                 }
             }
 
+            #[cfg(may_verif)]
+            crate::verif::pt("io.recheck", crate::verif::addr(&**self.io_data), 0, 0);
             if self.io_data.io_flag.load(Ordering::Relaxed) != 0 {
                 continue;
             }
 
             // the result is still WouldBlock, need to try again
+            #[cfg(may_verif)]
+            crate::verif::pt("io.yield", crate::verif::addr(&**self.io_data), 0, 0);
             yield_with_io(self, self.is_coroutine);
         }
     }
@@ -75,9 +83,15 @@ impl EventSource for UnixRecvFrom<'_> {
                 .get_selector()
                 .add_io_timer(self.io_data, dur);
         }
+        #[cfg(may_verif)]
+        let vid = crate::verif::co_vid(&co);
+        #[cfg(may_verif)]
+        crate::verif::pt("iosub.store_co", crate::verif::addr(&**io_data), vid, 0);
         io_data.co.store(co);
 
         // there is event, re-run the coroutine
+        #[cfg(may_verif)]
+        crate::verif::pt("iosub.recheck", crate::verif::addr(&**io_data), vid, 0);
         if io_data.io_flag.load(Ordering::Acquire) != 0 {
             #[allow(clippy::needless_return)]
             return io_data.fast_schedule();
@@ -86,6 +100,8 @@ impl EventSource for UnixRecvFrom<'_> {
         #[cfg(feature = "io_cancel")]
         {
             // register the cancel io data
+            #[cfg(may_verif)]
+            crate::verif::pt("iosub.set_cancel", crate::verif::addr(&**io_data), vid, 0);
             cancel.set_io((*io_data).clone());
             // re-check the cancel status
             if cancel.is_canceled() {
